@@ -78,58 +78,62 @@ func cmdVerify(args []string) {
 				}
 				continue
 			}
-			var res *FuncResult
+			var ress []*FuncResult
 			if fc.Lemma {
-				res = prog.VerifyLemma(fc, cf, cf.PkgTypes.Name(), "quick")
+				ress = append(ress, prog.VerifyLemma(fc, cf, cf.PkgTypes.Name(), "quick"))
 			} else {
-				fn := prog.FindFunc(pkgPath, key)
-				if fn == nil {
+				items, found := prog.Expand(pkgPath, key, fc)
+				if !found {
 					fmt.Printf("STALE-CONTRACT %s: function not found\n", key)
 					bad++
 					continue
 				}
-				res = prog.VerifyFunc(fn, fc, cf, "quick")
-			}
-			if res.Unsupported != "" {
-				fmt.Printf("%-50s UNSUPPORTED: %s\n", res.Name, res.Unsupported)
-				bad++
-				continue
-			}
-			if res.ContractErr != "" {
-				fmt.Printf("%-50s CONTRACT-ERROR: %s\n", res.Name, res.ContractErr)
-				bad++
-				continue
-			}
-			if res.Trusted != "" {
-				fmt.Printf("%-50s trusted: %s\n", res.Name, res.Trusted)
-				continue
-			}
-			DischargeAll(res.Obls, work+"/"+sanitize(res.Name), *timeout, *seedFlag, 8)
-			ok, fail := 0, 0
-			for _, o := range res.Obls {
-				good := (o.Status == "unsat" && !o.ExpectSat) || (o.Status != "unsat" && o.ExpectSat)
-				if good {
-					ok++
-				} else {
-					fail++
+				for _, it := range items {
+					ress = append(ress, prog.VerifyFunc(it.fn, fc, cf, "quick"))
 				}
-				if *verbose || !good {
-					fmt.Printf("    %-70s %-8s %-7s %5dms  %s  %s\n", o.Name, o.Status, o.Solver, o.Ms, o.Src, truncate(o.Desc, 90))
-					if !good && o.Status != "timeout" && o.Status != "unknown" {
-						for _, l := range strings.Split(strings.TrimSpace(o.Output), "\n") {
-							if len(l) > 200 {
-								l = l[:200]
+			}
+			for _, res := range ress {
+				if res.Unsupported != "" {
+					fmt.Printf("%-50s UNSUPPORTED: %s\n", res.Name, res.Unsupported)
+					bad++
+					continue
+				}
+				if res.ContractErr != "" {
+					fmt.Printf("%-50s CONTRACT-ERROR: %s\n", res.Name, res.ContractErr)
+					bad++
+					continue
+				}
+				if res.Trusted != "" {
+					fmt.Printf("%-50s trusted: %s\n", res.Name, res.Trusted)
+					continue
+				}
+				DischargeAll(res.Obls, work+"/"+sanitize(res.Name), *timeout, *seedFlag, 8)
+				ok, fail := 0, 0
+				for _, o := range res.Obls {
+					good := (o.Status == "unsat" && !o.ExpectSat) || (o.Status != "unsat" && o.ExpectSat)
+					if good {
+						ok++
+					} else {
+						fail++
+					}
+					if *verbose || !good {
+						fmt.Printf("    %-70s %-8s %-7s %5dms  %s  %s\n", o.Name, o.Status, o.Solver, o.Ms, o.Src, truncate(o.Desc, 90))
+						if !good && o.Status != "timeout" && o.Status != "unknown" {
+							for _, l := range strings.Split(strings.TrimSpace(o.Output), "\n") {
+								if len(l) > 200 {
+									l = l[:200]
+								}
+								fmt.Println("        " + l)
 							}
-							fmt.Println("        " + l)
 						}
 					}
 				}
+				fmt.Printf("%-50s mode=%s obligations=%d discharged=%d failed=%d\n", res.Name, res.Mode, len(res.Obls), ok, fail)
+				for _, n := range res.Notes {
+					fmt.Println("    note:", n)
+				}
+				bad += fail
 			}
-			fmt.Printf("%-50s mode=%s obligations=%d discharged=%d failed=%d\n", res.Name, res.Mode, len(res.Obls), ok, fail)
-			for _, n := range res.Notes {
-				fmt.Println("    note:", n)
-			}
-			bad += fail
 		}
 	}
 	if bad > 0 {
